@@ -1322,19 +1322,32 @@ Proof.
   cbn [app import_sections]. destruct (import_section D nid x od); cbn [rbind]; [apply IH|reflexivity|reflexivity].
 Qed.
 
+Lemma import_fixed_parts D nid od :
+  (forall b, import_sections D nid (head_fileinfo b) od = Ok od) /\
+  (forall b o, import_sections D nid (pick b (head_devinfo o)) od = Ok od) /\
+  (forall b o, import_sections D nid (pick b (head_commissioning o)) od = Ok od) /\
+  (forall b, import_sections D nid (head_dummy b) od = Ok od) /\
+  (forall b o, import_sections D nid (pick b (head_comments o)) od = Ok od).
+Proof.
+  split; [intros [|]; reflexivity|]. split; [|split; [|split]].
+  - intros [|] [pb|]; reflexivity.
+  - intros [|] [c|]; reflexivity.
+  - intros [|]; vm_compute; reflexivity.
+  - intros [|] [c|]; reflexivity.
+Qed.
+
 Lemma import_head D nid d od : import_sections D nid (write_head d) od = Ok od.
 Proof.
-  unfold write_head.
-  assert (A : forall b, import_sections D nid (head_fileinfo b) od = Ok od) by (intros [|]; reflexivity).
-  assert (B : forall o, import_sections D nid (head_devinfo o) od = Ok od).
-  { intros [pb|]; [|reflexivity]. cbn [head_devinfo import_sections]. rewrite import_section_other by reflexivity. reflexivity. }
-  assert (C : forall o, import_sections D nid (head_commissioning o) od = Ok od).
-  { intros [c|]; [|reflexivity]. cbn [head_commissioning import_sections]. rewrite import_section_other by reflexivity. reflexivity. }
-  assert (Dm : forall b, import_sections D nid (head_dummy b) od = Ok od) by (intros [|]; vm_compute; reflexivity).
-  assert (E : forall o, import_sections D nid (head_comments o) od = Ok od).
-  { intros [c|]; [|reflexivity]. cbn [head_comments import_sections]. rewrite import_section_other by reflexivity. reflexivity. }
+  unfold write_head. destruct (import_fixed_parts D nid od) as (A & B & C & Dm & E).
   rewrite import_sections_app, A. cbn [rbind]. rewrite import_sections_app, B. cbn [rbind].
   rewrite import_sections_app, C. cbn [rbind]. rewrite import_sections_app, Dm. cbn [rbind]. apply E.
+Qed.
+
+(* the fixed sections may also follow the objects: sections are looked up by name, not by position *)
+Lemma import_tail D nid d od : import_sections D nid (write_tail d) od = Ok od.
+Proof.
+  unfold write_tail. destruct (import_fixed_parts D nid od) as (_ & B & C & _ & E).
+  rewrite import_sections_app, B. cbn [rbind]. rewrite import_sections_app, C. cbn [rbind]. apply E.
 Qed.
 
 (* ---- object sections never carry one of the fixed names ---- *)
@@ -1449,33 +1462,32 @@ Proof.
 Qed.
 
 (* ---- the fixed sections of a written document ---- *)
-Lemma find_fixed nid d k : forallb is_hex (firstn 4 k) = false -> Forall (odesc_ok nid) (dd_objects d) ->
-  find_section (write d) k = sassoc k (write_head d).
-Proof.
-  intros Hk Ho. unfold find_section, write.
-  transitivity (match sassoc k (write_head d) with Some a => Some a
-                | None => sassoc k (flat_map write_obj (dd_objects d)) end); [apply sassoc_app_str|].
-  rewrite (objects_not_named nid k _ Hk Ho). destruct (sassoc k (write_head d)); reflexivity.
-Qed.
-
 Lemma sassoc_sections_app key (x y : list section) :
   sassoc key (x ++ y) = match sassoc key x with Some a => Some a | None => sassoc key y end.
 Proof. apply sassoc_app_str. Qed.
 
-Lemma head_comments_found d : sassoc (s "Comments") (write_head d) = option_map comments_kv (dd_comments d).
+Lemma find_fixed nid d k : forallb is_hex (firstn 4 k) = false -> Forall (odesc_ok nid) (dd_objects d) ->
+  find_section (write d) k = sassoc k (write_head d ++ write_tail d).
 Proof.
-  unfold write_head. rewrite !sassoc_sections_app.
-  destruct (dd_extra d), (dd_devinfo d), (dd_commissioning d), (dd_comments d); reflexivity.
+  intros Hk Ho. unfold find_section, write. rewrite !sassoc_sections_app.
+  rewrite (objects_not_named nid k _ Hk Ho). reflexivity.
 Qed.
-Lemma head_commissioning_found d : sassoc (s "DeviceComissioning") (write_head d) = option_map commissioning_kv (dd_commissioning d).
+
+Lemma fixed_comments_found d : sassoc (s "Comments") (write_head d ++ write_tail d) = option_map comments_kv (dd_comments d).
 Proof.
-  unfold write_head. rewrite !sassoc_sections_app.
-  destruct (dd_extra d), (dd_devinfo d), (dd_commissioning d), (dd_comments d); reflexivity.
+  unfold write_head, write_tail, tail_di, tail_co, tail_cm. rewrite !sassoc_sections_app.
+  destruct (dd_tail d) as [[[|] [|]] [|]], (dd_extra d), (dd_devinfo d), (dd_commissioning d), (dd_comments d); reflexivity.
 Qed.
-Lemma head_devinfo_absent d : dd_devinfo d = None -> sassoc (s "DeviceInfo") (write_head d) = None.
+Lemma fixed_commissioning_found d :
+  sassoc (s "DeviceComissioning") (write_head d ++ write_tail d) = option_map commissioning_kv (dd_commissioning d).
 Proof.
-  intros H. unfold write_head. rewrite !sassoc_sections_app, H.
-  destruct (dd_extra d), (dd_commissioning d), (dd_comments d); reflexivity.
+  unfold write_head, write_tail, tail_di, tail_co, tail_cm. rewrite !sassoc_sections_app.
+  destruct (dd_tail d) as [[[|] [|]] [|]], (dd_extra d), (dd_devinfo d), (dd_commissioning d), (dd_comments d); reflexivity.
+Qed.
+Lemma fixed_devinfo_absent d : dd_devinfo d = None -> sassoc (s "DeviceInfo") (write_head d ++ write_tail d) = None.
+Proof.
+  intros H. unfold write_head, write_tail, tail_di, tail_co, tail_cm. rewrite !sassoc_sections_app, H.
+  destruct (dd_tail d) as [[[|] [|]] [|]], (dd_extra d), (dd_commissioning d), (dd_comments d); reflexivity.
 Qed.
 
 Lemma fold_left_map {A B C} (f : A -> B -> A) (g : C -> B) l a :
@@ -1493,11 +1505,11 @@ Proof.
   assert (Cm : import_comments (write d) empty_od =
                Ok (with_comments empty_od (match dd_comments d with Some ls => join_nl ls | None => [] end))).
   { destruct (dd_comments d) as [ls|] eqn:E.
-    - apply import_comments_kv. rewrite (find_fixed eff) by (reflexivity || exact Ho). rewrite head_comments_found, E. reflexivity.
-    - unfold import_comments. rewrite (find_fixed eff) by (reflexivity || exact Ho). rewrite head_comments_found, E. reflexivity. }
+    - apply import_comments_kv. rewrite (find_fixed eff) by (reflexivity || exact Ho). rewrite fixed_comments_found, E. reflexivity.
+    - unfold import_comments. rewrite (find_fixed eff) by (reflexivity || exact Ho). rewrite fixed_comments_found, E. reflexivity. }
   rewrite Cm. cbn [rbind].
   assert (Di : forall od, import_devinfo (write d) od = Ok od).
-  { intros od. unfold import_devinfo. rewrite (find_fixed eff) by (reflexivity || exact Ho). rewrite head_devinfo_absent by exact Hdi. reflexivity. }
+  { intros od. unfold import_devinfo. rewrite (find_fixed eff) by (reflexivity || exact Ho). rewrite fixed_devinfo_absent by exact Hdi. reflexivity. }
   rewrite Di. cbn [rbind].
   assert (Co : forall od, import_commissioning (write d) nid od =
                Ok (match dd_commissioning d with
@@ -1505,13 +1517,13 @@ Proof.
                                  (match snd c with Some r => if r =? 0 then None else Some (r * 1000) | None => None end) eff
                    | None => od end, eff)).
   { intros od. unfold eff, node_id_in_force. destruct (dd_commissioning d) as [c|] eqn:E.
-    - rewrite (import_commissioning_kv _ c) by (rewrite (find_fixed eff) by (reflexivity || exact Ho); rewrite head_commissioning_found, E; reflexivity).
+    - rewrite (import_commissioning_kv _ c) by (rewrite (find_fixed eff) by (reflexivity || exact Ho); rewrite fixed_commissioning_found, E; reflexivity).
       destruct c as [[[n sp]|] [r|]], nid; reflexivity.
-    - unfold import_commissioning. rewrite (find_fixed eff) by (reflexivity || exact Ho). rewrite head_commissioning_found, E.
+    - unfold import_commissioning. rewrite (find_fixed eff) by (reflexivity || exact Ho). rewrite fixed_commissioning_found, E.
       cbn [option_map]. destruct nid; reflexivity. }
   rewrite Co. cbn [rbind fst snd].
   unfold write at 2. rewrite import_sections_app, import_head. cbn [rbind].
-  rewrite <- (app_nil_r (flat_map write_obj (dd_objects d))), import_objects by exact Ho. cbn [import_sections].
+  rewrite import_objects by exact Ho. rewrite import_tail.
   f_equal. unfold described, described_devinfo. fold eff. rewrite Hdi.
   unfold build_od. rewrite fold_left_map. f_equal.
   destruct (dd_commissioning d) as [[? [?|]]|]; reflexivity.
@@ -1890,6 +1902,14 @@ Proof. reflexivity. Qed.
 Lemma devinfo_table_ok : DEVINFO_IMPORT = DEVINFO_ROWS /\ BAUD_RATES = STD_RATES.
 Proof. split; reflexivity. Qed.
 
+(* ================================================================== export_od: destination and document type *)
+Lemma export_type_explicit dest t : t = s "eds" \/ t = s "dcf" ->
+  export_od_type dest (Some t) = Ok (Some (streq t (s "dcf"))).
+Proof. intros [->| ->]; reflexivity. Qed.
+
+Lemma export_type_from_name name : export_od_type (Some name) None = Ok (Some (ends_with (s ".dcf") name)).
+Proof. unfold export_od_type. destruct (ends_with (s ".dcf") name); reflexivity. Qed.
+
 (* ================================================================== data of the non-vacuity examples in Properties/ *)
 Definition ex_var : vdesc :=   (* INTEGER24, limits as 24-bit two's complement, default -5 in hex *)
   mkVd (s "speed = 100%") 0 16 (SpHex false true 4) (s "RW") (Some (true, SpHex false false 0))
@@ -1905,7 +1925,8 @@ Definition ex_doc : ddesc :=
   mkDd true None (Some (Some (5, SpHex false false 0), Some 250)) (Some [s "first"; s "second = line"])
        [ DVar 8192 true None false ex_var;
          DCont KRec 4608 false (s "Rec") (Some (s "ROM")) (SpHex false false 0) true true [ex_n0; ex_cob];
-         DCompact 4099 false SpDec ex_var 4 (Some [(1, s "one"); (3, s "three")]) ].
+         DCompact 4099 false SpDec ex_var 4 (Some [(1, s "one"); (3, s "three")]) ]
+       (false, true, true).
 
 
 Definition ex_v (sub : Z) (dt : Z) (d : option pyv) (lo hi : option Z) : odvar :=
